@@ -418,3 +418,20 @@ func init() {
 	addMutant(Mutant{Name: "c26-orderedmap-name-unguarded", Property: "C26", File: "gogen/unordered_list.go",
 		Old: "\t\tif names[structName] {\n\t\t\tstructName = fmt.Sprintf(\"%s_%s_YANGOrderedMap\", parent.Name, listFieldName)\n\t\t\tif names[structName] {", New: "\t\tif len(names) < 0 {\n\t\t\tstructName = fmt.Sprintf(\"%s_%s_YANGOrderedMap\", parent.Name, listFieldName)\n\t\t\tif len(names) < 0 {", Expect: "ordered-map-name"})
 }
+
+func init() {
+	addMutant(Mutant{Name: "c26-union-name-reuse-unchecked", Property: "C26", File: "gogen/gogen.go",
+		Old: "if seenUnion && len(field.LangType.UnionTypes) > 1 && !reflect.DeepEqual(prevUnionTypes, field.LangType.UnionTypes) {", New: "if seenUnion && len(field.LangType.UnionTypes) > 1 && len(prevUnionTypes) != len(field.LangType.UnionTypes) && !reflect.DeepEqual(prevUnionTypes, prevUnionTypes) {", Expect: "union-name-reuse"})
+}
+
+func init() {
+	addMutant(Mutant{Name: "c28-enum-label-not-uniquified", Property: "C28", File: "protogen/protogen.go",
+		Old: "\t\tlabel := genutil.MakeNameUnique(safeProtoIdentifierName(enumDef.Name), usedLabels)\n", New: "\t\tlabel := safeProtoIdentifierName(enumDef.Name)\n\t\tusedLabels[label] = true\n", Expect: "genProtoEnum:enum-label"})
+}
+
+func init() {
+	addMutant(Mutant{Name: "c28-enum-prefix-from-name", Property: "C28", File: "protogen/protogen.go",
+		Old: "    {{ $enum.ValuePrefix }}_{{ $val.ProtoLabel }} = {{ $i }}", New: "    {{ toUpper $ename }}_{{ $val.ProtoLabel }} = {{ $i }}", Expect: "protoMessageTemplate:enum-value-prefix"})
+	addMutant(Mutant{Name: "c28-keymsg-name-unchecked", Property: "C28", File: "protogen/protogen.go",
+		Old: "\tn := genutil.MakeNameUnique(fmt.Sprintf(\"%s%s\", listName, protoListKeyMessageSuffix), msgNames)", New: "\tn := fmt.Sprintf(\"%s%s\", listName, protoListKeyMessageSuffix)\n\t_ = msgNames", Expect: "genListKeyProto:key-message-name"})
+}
